@@ -74,9 +74,10 @@ def one(dst):
         prev = json.loads((dst / "meta.json").read_text()) if (dst / "meta.json").exists() else {}
         r = sh(f"git -C {wt} apply {dst / 'patch.diff'}")
         if r.returncode != 0:
-            meta["applies"] = False
-            (dst / "meta.json").write_text(json.dumps(meta, indent=1))
-            return dst.name, ["patch does not apply: " + r.stderr.strip()[:200]]
+            # written against an older base: keep the results obtained there, only record that it does not apply to this HEAD
+            prev["applies_to"] = dict(prev.get("applies_to", {}), **{head: False})
+            (dst / "meta.json").write_text(json.dumps(prev or meta, indent=1))
+            return dst.name, []
         alarms = []
         try:
             f, tail = failing(wt)
@@ -115,7 +116,7 @@ bad = []
 try:
     with ThreadPoolExecutor(J) as ex:
         for name, alarms in ex.map(one, jobs):
-            print(f"{name}: {'silent' if not alarms else 'ALARM'}", flush=True)
+            print(f"{name}: {'silent (or not applicable to this HEAD)' if not alarms else 'ALARM'}", flush=True)
             for a in alarms:
                 print("    " + a[:600], flush=True)
             if alarms:
